@@ -7,7 +7,9 @@ TRUSTED = ['abstract handler contract (DESIGN 5.2)', 'tree lemmas (discharged ob
            'Event.__init__ contract (proved under C25)']
 ASSUMPTIONS = ['Inv_idle (temp.fun == state.fun between public calls) is what every operation assumes; its '
                'preservation by start_at, dispatch, is_in and child_state is checked here too (tag idle)',
-               'state functions obey the handler contract']
+               'state functions obey the handler contract',
+               'handlers are compared as objects in the VCs; `chart.top` is a bound method (two mentions are == but not '
+               '`is`), so the query functions must not compare handlers by identity: checked on the syntax tree']
 EXPLANATION = ('is_in/child_state of the real source over an uninterpreted tree: the answer is compared with the '
                'spec function encloses(X, current); the frame (only temp.fun, restored) and the absence of any monitor '
                'step or offer show that the chart and its later behaviour are untouched.')
@@ -19,3 +21,25 @@ def build(src, tier):
     spied = (ws, [K.t_query_spied('is_in'), K.t_query_spied('child_state')])
     w = K.world_for(src, tier)
     return [(w, [K.t_tree_lemmas(), K.t_is_in(), K.t_child_state(), K.t_dispatch(), K.t_trans_(), K.t_start_at()]), spied]
+
+
+def extra(src, tier, seed):
+    """The queried state is handed in by the caller; `chart.top` (and any bound-method handler) is a new object on every
+    mention, equal but not identical to the one the chart holds: comparing handlers with `is` answers wrongly for them."""
+    import ast
+    out = []
+    for fn in ('is_in', 'child_state'):
+        fi = src.funcs.get('hsm.HsmEventProcessor.' + fn)
+        bad = []
+        if fi is not None:
+            for n in ast.walk(fi.node):
+                if isinstance(n, ast.Compare):
+                    sides = [n.left] + list(n.comparators)
+                    for op, a, b in zip(n.ops, sides, sides[1:]):
+                        if isinstance(op, (ast.Is, ast.IsNot)) and not any(
+                                isinstance(x, ast.Constant) and x.value in (None, True, False) for x in (a, b)):
+                            bad.append('line %d: %s' % (n.lineno, ast.unparse(n)))
+        out.append({'name': '%s:syntax/handlers-are-compared-by-equality-not-identity' % fn, 'backend': 'ast',
+                    'status': 'discharged' if (fi is not None and not bad) else 'refuted', 'seconds': 0.0,
+                    'detail': '; '.join(bad) if bad else 'no identity comparison of non-constant values'})
+    return out
